@@ -27,7 +27,7 @@ def load_registry():
     REG.spec_source(os.path.join(ROOT, "contracts", "specs.py"))
     import pkgutil
     import contracts
-    names = sorted(m.name for m in pkgutil.iter_modules(contracts.__path__) if m.name.startswith("c"))
+    names = sorted(m.name for m in pkgutil.iter_modules(contracts.__path__) if m.name != "specs" and not m.name.startswith("_"))
     for m in names:
         importlib.import_module("contracts." + m)
     REG._loaded = True
@@ -99,14 +99,27 @@ def main(argv=None):
     timeout_ms = 20000 if a.tier == "quick" else 120000
     idxs = [i for i, c in enumerate(REG.variants) if a.prop in c.prop and a.filter in (c.key + "#" + c.short)]
     lemma_results = []
-    if not idxs and not [l for l in REG.lemmas if l[1] == a.prop]:
+    fcl = [c for c in REG.fclauses if a.prop in c["prop"] and a.filter in c["name"] + c["key"]]
+    if not idxs and not [l for l in REG.lemmas if l[1] == a.prop] and not fcl:
         print("no contracts registered for", a.prop)
         return 2
     ctx = mp.get_context("fork")
-    with ctx.Pool(min(a.jobs, max(1, len(idxs)))) as pool:
-        results = pool.map(_work, [(i, timeout_ms, a.tier) for i in idxs], chunksize=1)
+    results = []
+    if idxs:
+        with ctx.Pool(min(a.jobs, max(1, len(idxs)))) as pool:
+            results = pool.map(_work, [(i, timeout_ms, a.tier) for i in idxs], chunksize=1)
     from pyvc.lemmas import run_lemmas
-    lemma_results = run_lemmas(REG, a.prop, timeout_ms)
+    lemma_results = run_lemmas(REG, a.prop, timeout_ms) if not a.filter else []
+    from pyvc.effects import run_clause
+    for c in fcl:
+        try:
+            rs = run_clause(c)
+        except Exception:
+            rs = [{"name": c["name"], "status": "error", "detail": traceback.format_exc(), "where": "", "seconds": 0.0, "backend": "engine-F"}]
+        for r in rs:
+            r["name"] = "F/" + r["name"]
+            r["fkey"] = c["key"]
+            lemma_results.append(r)
     return finish(a.prop, a.tier, REG, results, lemma_results, time.time() - t0, write_evidence=not a.no_evidence)
 
 
